@@ -324,6 +324,14 @@ def Input.Fits16 : Input → Prop
   | .generic n => n < 65536
   | .roach n => n < 65536
 
+/-- the driver's Boolean guard is this predicate -/
+theorem fits16_iff (inp : Input) : inp.fits16 = true ↔ inp.Fits16 := by
+  cases inp with
+  | lancero c => simp [Input.fits16, Input.Fits16, List.all_eq_true]
+  | abaco p => simp [Input.fits16, Input.Fits16, GroupsFit16, List.all_eq_true]
+  | generic n => simp [Input.fits16, Input.Fits16]
+  | roach n => simp [Input.fits16, Input.Fits16]
+
 def expectedGeom (inp : Input) : List (Nat × Nat × Nat × Nat) :=
   if inp.isTDM then dup2 inp.geom else inp.geom
 
@@ -391,7 +399,7 @@ theorem C19_codes_decode_partial (inp : Input) (t : Tables) (hf : inp.Fits16) (h
     exact decoded_mkStream _ _ _ _ _ _ (by omega) (by omega) (by omega) (by omega)
 
 /-- The guard cannot be dropped: a ROACH (or simulated) source with 65537 channels is accepted and its last
-stream's code decodes to row 0 of 1 row — the recorded known finding `C19:rccode-geometry`. -/
+stream's code decodes to row 0 of 1 row — the recorded known finding `C19:rccode-overflow16`. -/
 theorem C19_codes_decode_counterexample : ¬ C19_codes_decode_full := by
   intro hfull
   have h := hfull (.roach 65537) (roachPrepare 65537) rfl
@@ -531,13 +539,13 @@ theorem C19_model_passes_oracle (inp : Input) (hv : inp.Valid) (hf : inp.Fits16)
 /-- and conversely the oracle is sound: tables it accepts have distinct numbers per pixel, distinct names, agreeing
 partners and groups covering exactly the numbers in use -/
 theorem C19_oracle_sound (tdm : Bool) (geom : List (Nat × Nat × Nat × Nat)) (t : Tables)
-    (h : chkTables tdm geom t = none) :
+    (dec : List (Nat × Nat × Nat × Nat)) (h : chkTables tdm geom t dec = none) :
     t.streams.length = t.nchan ∧
     (tdm = true → evens (t.streams.map (·.num)) = odds (t.streams.map (·.num))) ∧
     (if tdm then evens (t.streams.map (·.num)) else t.streams.map (·.num)).Nodup ∧
     (t.streams.map (·.name)).Nodup ∧
     (∀ x, x ∈ (if tdm then evens (t.streams.map (·.num)) else t.streams.map (·.num)) ↔ x ∈ allChans t.groups) ∧
-    t.streams.map decoded = (if tdm then dup2 geom else geom) := by
+    dec = (if tdm then dup2 geom else geom) := by
   simp only [chkTables] at h
   generalize (if tdm = true then evens (t.streams.map (·.num)) else t.streams.map (·.num)) = pix at h ⊢
   generalize (if tdm = true then dup2 geom else geom) = eg at h ⊢
